@@ -3,7 +3,7 @@
   `wrap_single_line_slow_path`, `wrap` (wrap.rs:180-292), `fill`, `fill_slow_path`,
   `fill_inplace` (fill.rs:36-66, 120-153).
 -/
-import TextwrapModel.Num
+import TextwrapModel.Smawk
 namespace TW
 
 inductive LineEnding where
@@ -41,6 +41,13 @@ abbrev MinimaOracle (α : Type) := List (Frag α) → List α → List Nat
 
 section
 variable {α : Type} [CostNum α]
+
+/-- the minima the model's own `smawk` (TextwrapModel/Smawk.lean) computes for penalties `pen`:
+    with this oracle the model of `wrap` is self-contained -/
+def ownMinima (pen : Penalties) : MinimaOracle α := fun frs lws =>
+  match onlineColumnMinima (costClosure pen lws frs (prefixWidths frs)) 0 (prefixWidths frs).length with
+  | some minima => minima.map (·.1)
+  | none => []
 
 /-- `Fragment for Word`: `width as f64`, `whitespace.len() as f64`, `penalty.len() as f64` -/
 def fragOf (w : Word) : Frag α :=
